@@ -32,7 +32,8 @@ pub fn rich_sdesc<R: Rng>(rng: &mut R, r: &PortableRegistry) -> SDesc {
     pool.extend(["Debug", "Clone", "PartialEq", "Eq"].iter().map(|s| s.to_string()));
     pool.shuffle(rng);
     d.global_derives = pool[..rng.gen_range(8..=20)].to_vec();
-    let mut apool: Vec<String> = (0..12).map(|i| format!("#[a{i}(x = {i})]")).collect();
+    // several attributes share one attribute path (as #[serde(..)] / #[codec(..)] do in practice)
+    let mut apool: Vec<String> = (0..12).map(|i| format!("#[a{}(x = {i})]", i % 3)).collect();
     apool.shuffle(rng);
     d.global_attrs = apool[..rng.gen_range(3..=8)].to_vec();
     let mut paths: Vec<String> = generated_paths(r).into_iter().map(|p| p.join("::")).collect();
